@@ -91,6 +91,13 @@ def oracle(case, res):
     cfg, ops = parse_case(case)
     per_op, state = parse_result(res)
     frames = frames_of(ops)
+    # option calls at run time (before any frame): SetHandleOnlyKnownMessages decides what is handled; the forwarding options do not
+    for o in ops:
+        if o and o[0] == 'R':
+            break
+        if o and o[0] == 'O' and len(o) >= 3 and o[1] == '0':
+            cfg = dict(cfg)
+            cfg['ok'] = 1 if o[2] == '1' else 0
     ideal = G.Ideal(cfg)
     now = cfg.get('t0', 0)
     fed = 0          # frames fed so far
